@@ -7,6 +7,7 @@ mod coll;
 mod conn;
 mod client;
 mod resp;
+mod cmds;
 
 fn unhex(s: &str) -> Vec<u8> {
     let s = s.trim();
@@ -49,6 +50,7 @@ fn main() {
         "recv" => conn::recv(&args[1..]),
         "client" => client::client(&args[1..]),
         "resp" => resp::resp(&args[1..]),
+        "cmd" => cmds::cmd(&args[1..]),
         "typedcount" => resp::typedcount(&args[1..]),
         "frame" => coll::frame(&args[1..]),
         "response" => coll::response(&args[1..]),
